@@ -33,6 +33,9 @@ CLASSES_Q = '{"plain", "quote", "qq", "qqq", "xqqy", "xqqqy", "tailqq", "headqq"
 CLASSES_Q4 = '{"plain", "qq", "xqqy", "tailqq"}'
 CLASSES_BIG = ('{"empty", "plain", "sep", "quote", "cr", "lf", "crlf", "nonascii", "astral", "blank", "mix", "dquote", "endq", "long", '
                '"qq", "qqq", "xqqy", "xqqqy", "tailqq", "headqq"}')
+# quote runs at the 8-bit thresholds of a per-field quote counter (n quotes are written as 2n + 2 quote characters)
+CLASSES_QN = '{"plain", "q126", "q127", "q128", "q129", "q254", "q255", "q256", "xq127y", "xq128y", "xq255y", "q100xq27"}'
+CLASSES_QN4 = '{"plain", "q127", "q128", "q255"}'
 # header names of which each is a proper prefix of the next (a, ab, abc, abcd), in both file orders
 HK_PREFIX = '{"prefix", "prefixrev"}'
 HK_ALL = '{"plain", "nasty", "prefix", "prefixrev"}'
@@ -85,7 +88,8 @@ def leg_mc(chk, tier):
         confs = [dict(shapes="{10, 11, 21, 12}", mode="all", chunks="{3, 5}"),
                  dict(shapes="{31, 22}", classes=CLASSES5, hk='{"nasty", "prefix"}', mode="uniform", chunks="{4}", ragged="FALSE"),
                  dict(shapes="{11, 21}", classes=CLASSES_Q, hk=HK_PREFIX, seps="{44, 32}", mode="all", chunks="{3, 5}"),
-                 dict(shapes="{31}", classes=CLASSES_Q4, hk=HK_PREFIX, seps="{44, 59}", mode="uniform", chunks="{4}", ragged="FALSE")]
+                 dict(shapes="{31}", classes=CLASSES_Q4, hk=HK_PREFIX, seps="{44, 59}", mode="uniform", chunks="{4}", ragged="FALSE"),
+                 dict(shapes="{11}", classes=CLASSES_QN, hk='{"plain"}', seps="{44}", mode="uniform", chunks="{7, 64}")]
     else:
         confs = [dict(shapes="{10, 11, 21, 12}", classes=CLASSES12, mode="all", chunks="{3, 4, 5}"),
                  dict(shapes="{31, 13}", classes=CLASSES6, seps="{44}", hk='{"plain"}', mode="all", chunks="{4, 7}"),
@@ -93,7 +97,9 @@ def leg_mc(chk, tier):
                  dict(shapes="{32, 23}", classes=CLASSES4, mode="uniform", chunks="{4}", ragged="FALSE",
                       hk='{"plain"}', seps="{44}"),
                  dict(shapes="{11, 21, 12}", classes=CLASSES_Q, hk=HK_PREFIX, mode="all", chunks="{3, 4, 5}"),
-                 dict(shapes="{31, 41}", classes=CLASSES_Q4, hk=HK_PREFIX, seps="{44, 59}", mode="uniform", chunks="{4, 7}", ragged="FALSE")]
+                 dict(shapes="{31, 41}", classes=CLASSES_Q4, hk=HK_PREFIX, seps="{44, 59}", mode="uniform", chunks="{4, 7}", ragged="FALSE"),
+                 dict(shapes="{11}", classes=CLASSES_QN, hk='{"plain"}', seps="{44, 32}", mode="uniform", chunks="{7, 64}"),
+                 dict(shapes="{21}", classes=CLASSES_QN4, hk='{"plain"}', seps="{59}", mode="uniform", chunks="{32}", ragged="FALSE")]
     jobs = []
     for i, c in enumerate(confs):
         jobs.append(dict(module="MC_Csv", cfg=write_cfg("mc_csv_%d.cfg" % i, **c), workers=6 if tier == "quick" else 8, timeout=1700, xmx="4g"))
@@ -130,26 +136,33 @@ def generate(chk, tier):
     jobs = []
     if tier == "quick":
         save_confs = [dict(shapes="{10, 11, 21, 12}"), dict(shapes="{31, 22}", classes=CLASSES4, hk='{"nasty"}', seps="{44, 32}"),
-                      dict(shapes="{11, 21, 12}", classes=CLASSES_Q, hk=HK_PREFIX, seps="{44, 32}")]
+                      dict(shapes="{11, 21, 12}", classes=CLASSES_Q, hk=HK_PREFIX, seps="{44, 32}"),
+                      dict(shapes="{11}", classes=CLASSES_QN, hk='{"plain"}', seps="{44, 9}")]
         load_confs = [dict(shapes="{10, 11, 21}", classes=CLASSES5, hk='{"plain"}', seps="{44, 59, 32}", mode="all"),
                       dict(shapes="{12}", classes=CLASSES4, hk='{"nasty"}', seps="{59, 32}", mode="all"),
                       dict(shapes="{31}", classes=CLASSES5, hk='{"nasty"}', seps="{9, 124}", mode="uniform", ragged="FALSE"),
                       # adjacent quotes in every position x both readers; prefix-related column names x every request order
                       dict(shapes="{11, 21}", classes=CLASSES_Q, hk=HK_PREFIX, seps="{44, 32}", mode="uniform", ragged="FALSE"),
-                      dict(shapes="{31}", classes=CLASSES_Q4, hk=HK_PREFIX, seps="{59}", mode="uniform", ragged="FALSE")]
+                      dict(shapes="{31}", classes=CLASSES_Q4, hk=HK_PREFIX, seps="{59}", mode="uniform", ragged="FALSE"),
+                      # 126..256 quotes in one value (256, 258, 512 quote characters in the field), first and later column
+                      dict(shapes="{11}", classes=CLASSES_QN, hk='{"plain"}', seps="{44}", mode="uniform", ragged="FALSE"),
+                      dict(shapes="{21}", classes=CLASSES_QN4, hk='{"plain"}', seps="{59}", mode="uniform", ragged="FALSE")]
         sims = [dict(shapes="{32, 33, 23, 43}", classes=CLASSES_BIG, hk=HK_ALL, mode="random", ragged="FALSE", n=500),
                 dict(shapes="{32, 23}", classes=CLASSES_BIG, hk=HK_ALL, mode="random", n=60)]
     else:
         save_confs = [dict(shapes="{10, 11, 21, 12}", classes=CLASSES12),
                       dict(shapes="{31, 22, 13}", classes=CLASSES6, seps="{44, 59, 32}"),
                       dict(shapes="{32, 23}", classes=CLASSES3, seps="{9, 124}", hk='{"nasty"}'),
-                      dict(shapes="{11, 21, 12, 31}", classes=CLASSES_Q, hk=HK_PREFIX, seps="{44, 32}")]
+                      dict(shapes="{11, 21, 12, 31}", classes=CLASSES_Q, hk=HK_PREFIX, seps="{44, 32}"),
+                      dict(shapes="{11, 21}", classes=CLASSES_QN, hk='{"plain"}', seps="{44, 9}")]
         load_confs = [dict(shapes="{10, 11, 21}", classes=CLASSES10, seps="{44, 32}", hk='{"plain"}', mode="all"),
                       dict(shapes="{12}", classes=CLASSES6, seps="{59, 9}", hk='{"nasty"}', mode="all"),
                       dict(shapes="{31}", classes=CLASSES3, hk='{"plain"}', seps="{124}", mode="all", ragged="FALSE"),
                       dict(shapes="{22, 31, 13}", classes=CLASSES4, seps="{124}", mode="uniform", ragged="FALSE"),
                       dict(shapes="{11, 21, 12}", classes=CLASSES_Q, hk=HK_PREFIX, seps="{44, 32}", mode="all"),
-                      dict(shapes="{31, 41}", classes=CLASSES_Q4, hk=HK_PREFIX, seps="{59}", mode="uniform", ragged="FALSE")]
+                      dict(shapes="{31, 41}", classes=CLASSES_Q4, hk=HK_PREFIX, seps="{59}", mode="uniform", ragged="FALSE"),
+                      dict(shapes="{11, 21}", classes=CLASSES_QN, hk='{"plain"}', seps="{44}", mode="uniform", ragged="FALSE"),
+                      dict(shapes="{12}", classes=CLASSES_QN4, hk='{"nasty"}', seps="{59}", mode="all", ragged="FALSE")]
         sims = [dict(shapes="{32, 33, 23, 43}", classes=CLASSES_BIG, hk=HK_ALL, mode="random", ragged="FALSE", n=3000),
                 dict(shapes="{46, 38, 49}", classes=CLASSES_BIG, hk=HK_ALL, mode="random", ragged="FALSE", n=600),
                 dict(shapes="{32, 23, 44}", classes=CLASSES_BIG, hk=HK_ALL, mode="random", n=300)]
